@@ -203,6 +203,7 @@ class World:
         self.crashes_left = scn['crashes']
         # transient connection losses: a ZooKeeper write of a request handler fails with ConnectionLoss (nothing is
         # applied, the session survives); drawn from a generator of their own so that scripted replays stay exact
+        self.orphans = []
         self.connloss_left = scn.get('connloss', 0)
         self.connloss_injected = 0
         self.fault_rng = __import__('random').Random(scn.get('connloss_seed', 0))
@@ -362,6 +363,8 @@ class World:
         self.rng.shuffle(reqs)
         for path in reqs:
             proc.inbox.append(('created', os.path.basename(path)))
+        # "Before starting, make sure backend state and service state are synchronized" (after the replay)
+        proc.inbox.append(('synchronize', '-'))
         if host.gen > 1:
             self.count('replayed_requests', len(reqs))
             if len(reqs) > 1:
@@ -406,6 +409,12 @@ class World:
                 if not table[path]:
                     del table[path]
         host.keep_sid = proc.sid
+        if self.rng.random() < 0.3:
+            # the saved session id is lost with the process (zkid file removed): the next incarnation starts a new
+            # session while the old one lives on until it times out
+            host.keep_sid = None
+            self.orphans.append(proc.sid)
+            self.count('crashes_losing_the_session_id')
         self._settle()
 
     def _after_op(self, client, op, path):
@@ -486,6 +495,8 @@ class World:
 
     def _request_done(self, proc, task):
         ev, rid = task.meta['ev'], task.meta['rid']
+        if ev == 'synchronize':
+            return
         if ev == 'deleted':
             self.count('delete_requests_processed')
             self.oracle.cleanup_end(proc, task)
@@ -533,6 +544,9 @@ class World:
                         out.append(('crash:' + name, WEIGHTS['crash'], ('crash', h)))
             else:
                 out.append(('boot:' + name, WEIGHTS['boot'], ('boot', h)))
+        for sid in self.orphans:
+            if self.srv.sessions.get(sid):
+                out.append(('expire-orphan:%#x' % sid, WEIGHTS['expire'] * (8 if phase == 'drain' else 1), ('expire-orphan', sid)))
         if phase == 'main':
             for a in self.actions_left():
                 if all(d in self.done_actions for d in a['deps']):
@@ -585,6 +599,11 @@ class World:
             self.expire(arg)
         elif kind == 'crash':
             self.crash(arg)
+        elif kind == 'expire-orphan':
+            self.oracle.cur = None
+            self.count('orphan_sessions_expired')
+            self.srv.expire(arg)
+            self._settle()
         elif kind == 'act':
             self.oracle.cur = None
             self._action(arg)
@@ -604,6 +623,9 @@ class World:
         path = os.path.join(host.svc._rsrc_dir, rid)        # pylint: disable=protected-access
         handler = host.svc._on_deleted if ev == 'deleted' else host.svc._on_created   # pylint: disable=protected-access
         fn = lambda: handler(proc.impl, path)
+        if ev == 'synchronize':
+            fn = proc.impl.synchronize
+            self.count('synchronize_calls')
         cid = self.cont[rid]['cid'] if rid in self.cont else rid
         task = self.sched.spawn('%s:%s:%s' % (host.name, ev, cid), 'req', proc, fn,
                                 meta={'ev': ev, 'rid': rid})
